@@ -118,6 +118,12 @@ def subjects():
             else:
                 comp = [["complete", "a", "cancel"]] + ([["complete", "b", "cancel"]] if n == 2 else [])
             S[name]["variants"][kind] = {"setup": [["expr", "S", e]], "complete": comp}
+    # futures that are born finished (f_return / f_return_error / f_return_cancelled): the protocol holds for them too - in
+    # particular a waiter handed one must be answered at once
+    S["f_return*"] = {"variants": {
+        "value": {"setup": [["expr", "S", ["done", "done", 7]]], "complete": []},
+        "error": {"setup": [["expr", "S", ["done", "err", "E1"]]], "complete": []},
+        "cancel": {"setup": [["expr", "S", ["done", "cancelled"]]], "complete": []}}}
     return S
 
 
@@ -138,6 +144,9 @@ def actor_op(kind, i):
         return ["add_cb", "S", "cb%d" % i, ["op", ["cancel", "S"]]]
     if kind == "add_cb_result":
         return ["add_cb", "S", "cb%d" % i, ["op", ["result", "S", 0]]]
+    if kind == "add_cb_wait":
+        # a callback that hands its own (finished) future to wait(timeout=0): it must come back as done
+        return ["add_cb", "S", "cb%d" % i, ["op", ["wait", ["S"], 0, "all"]]]
     if kind == "result":
         return ["result", "S", WAIT_T]
     if kind == "exception":
@@ -155,7 +164,7 @@ def actor_op(kind, i):
     raise ValueError(kind)
 
 
-ACTOR_KINDS = ["cancel", "add_cb", "add_cb_nested", "add_cb_raising", "add_cb_cancel", "add_cb_result", "result", "exception", "wait_all", "wait_first", "wait_exc",
+ACTOR_KINDS = ["cancel", "add_cb", "add_cb_nested", "add_cb_raising", "add_cb_cancel", "add_cb_result", "add_cb_wait", "result", "exception", "wait_all", "wait_first", "wait_exc",
                "as_completed", "state"]
 
 
@@ -267,6 +276,14 @@ def evaluate(case):
             if o["op"][0] in ("result",) and r[1] in ("E0", "E1", "E2", "E3"):
                 continue  # the future's own outcome
             bad("exception-escaped-%s:%s" % (o["op"][0], r[1]), result=r)
+    # a wait() that STARTS after some done-callback of the subject has run (the future is finished by then, whoever asks) must
+    # report it as done
+    cb_seqs = [ev[0] for ev in s.events if ev[3] == "cb" and ev[4].get("fut") == "S"]
+    if cb_seqs:
+        for o in ops:
+            if o["op"][0] == "wait" and o["op"][1] == ["S"] and o["call_seq"] > min(cb_seqs) and o["result"] and o["result"][0] == "ok" and o["result"][1]["not_done"]:
+                bad("wait-after-done-callback-reports-not-done", op=o["op"], result=o["result"])
+                break
     # (3) callbacks
     registered = {}
     for o in ops:
